@@ -390,6 +390,45 @@ def paths_entail_empty(g, node, var, limit=4000, skip_labels=('exc',)):
     return walk(g.entry, {g.entry}, [])
 
 
+def found_test(test, var):
+    """Is *test* a comparison of the name *var* with an integer constant, and if so does it mean "var is a position / index
+    (>= 0) rather than the not-found value -1"?  Returns None (not such a test), ('true'|'false') = the outcome on which
+    var >= 0, or 'wrong' when it is such a comparison but separates the values -1, 0, 1, 7 differently (e.g. `var > 0`)."""
+    import operator as _op
+    co, lab = truth(test)
+    views = [(a, op, b) for a, op, b in cmp_views(co) if is_name(a, var) and isinstance(b, (ast.Constant, ast.UnaryOp))]
+    if not views:
+        return None
+    a, op, b = views[0]
+    try:
+        k = ast.literal_eval(b)
+    except Exception:
+        return None
+    if not isinstance(k, int) or isinstance(k, bool):
+        return None
+    fn = {ast.GtE: _op.ge, ast.Gt: _op.gt, ast.NotEq: _op.ne, ast.Lt: _op.lt, ast.LtE: _op.le, ast.Eq: _op.eq}.get(op)
+    if fn is None:
+        return None
+    prof = [fn(v, k) == (lab == 'true') for v in (-1, 0, 1, 7)]
+    if prof == [False, True, True, True]:
+        return 'true'
+    if prof == [True, False, False, False]:
+        return 'false'
+    return 'wrong'
+
+
+def found_tests(g, var):
+    """[(test node, verdict)] for every live test that compares *var* with an integer constant (see found_test)"""
+    out = []
+    live = g.live_nodes()
+    for t in g.nodes:
+        if t.kind == 'test' and t.ast is not None and t in live:
+            v = found_test(t.ast, var)
+            if v is not None:
+                out.append((t, v))
+    return out
+
+
 def other(label):
     return 'false' if label == 'true' else 'true'
 
